@@ -300,7 +300,8 @@ def d6(chk, prog):
         ok_order = len(rm) == 1 and rm[0][1] == [repr(lg[i]) for i in ranked] and same(rm[0][2], Fr(1, 10))
         got = {int(T(s_).cval()) // 100: v for s_, v in zip(out.data.cols["start"].v, out.data.cols["log2"].v)}
         ok_sub = all(same(got[i], t_sub(lg[i], Term.sym(f"bias_at_rank{ranked.index(i)}"))) for i in range(6))
-        ok_sorted = "__sorted__" in out.data.cols and out is not arr and all(same(a, b) for a, b in zip(arr.data.cols["log2"].v, lg))
+        starts_out = [int(T(s_).cval()) for s_ in out.data.cols["start"].v]
+        ok_sorted = ("__sorted__" in out.data.cols or starts_out == sorted(starts_out)) and out is not arr and all(same(a, b) for a, b in zip(arr.data.cols["log2"].v, lg))
         sorts = [e for e in ev if e[0] == "argsort"]
         tb.cell(ok_seed and ok_order and ok_sub and ok_sorted, dict(covariate="Series" if as_series else "ndarray", seeded_before_draw=ok_seed, sort_kind=sorts[0][1] if sorts else None,
                                                                      smoothing_order=rm[0][1] if rm else None, want_order=[repr(lg[i]) for i in ranked], subtraction_ok=ok_sub, resorted_and_input_untouched=ok_sorted))
@@ -458,6 +459,8 @@ def run(chk):
     d6(chk, prog)
     d7(chk, prog)
     d8(chk, prog)
+    from . import C08
+    C08.d2_sort_table(chk, prog)   # the sort both tables go through: (chromosome, start, end), ties in input order
     d9(chk, prog)
 
 
